@@ -63,10 +63,16 @@ func genQueryText(g *hx.Gen) string {
 	}
 }
 
-func urlFields(u *url.URL) []string {
+func urlFields(u *url.URL, raw string) []string {
 	auth := u.Host
 	if u.User != nil {
-		auth = u.User.String() + "@" + u.Host
+		// Userinfo.String() re-escapes the user name and password ("@." prints as "%40."); rrrouter never
+		// looks at the userinfo, so when the printed form is not the text that was parsed only the host is compared.
+		ui := u.User.String()
+		if !strings.Contains(raw, ui+"@"+u.Host) {
+			ui = "*"
+		}
+		auth = ui + "@" + u.Host
 	}
 	return []string{"ok", hx.X(u.Scheme), hx.X(auth), hx.X(u.RawQuery), hx.B(u.ForceQuery), hx.X(u.Opaque)}
 }
@@ -103,7 +109,7 @@ func urlSplitStream(g *hx.Gen, id int) hx.Case {
 		if err != nil {
 			return []string{"err"}
 		}
-		return urlFields(u)
+		return urlFields(u, s)
 	})
 	return hx.Case{Stream: "urlsplit", ID: id, In: []string{hx.X(s)}, Impl: impl}
 }
